@@ -37,6 +37,11 @@ import (
 	"golang.org/x/net/context"
 )
 
+const (
+	headerRange   = "Range"
+	headerIfRange = "If-Range"
+)
+
 var (
 	// directive names are case-insensitive (RFC 7234 5.2)
 	noCacheReg = regexp.MustCompile(`(?i)no-cache|no-store|private`)
@@ -110,6 +115,7 @@ func NewProxy(s *server) elton.Handler {
 
 		reqHeader := c.Request.Header
 		var ifModifiedSince, ifNoneMatch string
+		var rangeValue, ifRange string
 		status := getCacheStatus(c)
 		// 针对fetching的请求，由于其最终状态未知，因此需要删除有可能导致304的请求，避免无法生成缓存
 		if status == cache.StatusFetching {
@@ -120,6 +126,15 @@ func NewProxy(s *server) elton.Handler {
 			}
 			if ifNoneMatch != "" {
 				reqHeader.Del(elton.HeaderIfNoneMatch)
+			}
+			// range请求也需要删除，否则upstream返回206，而该部分数据会被缓存并响应给后续的其它请求
+			rangeValue = reqHeader.Get(headerRange)
+			ifRange = reqHeader.Get(headerIfRange)
+			if rangeValue != "" {
+				reqHeader.Del(headerRange)
+			}
+			if ifRange != "" {
+				reqHeader.Del(headerIfRange)
 			}
 		}
 
@@ -173,6 +188,12 @@ func NewProxy(s *server) elton.Handler {
 		}
 		if ifNoneMatch != "" {
 			reqHeader.Set(elton.HeaderIfNoneMatch, ifNoneMatch)
+		}
+		if rangeValue != "" {
+			reqHeader.Set(headerRange, rangeValue)
+		}
+		if ifRange != "" {
+			reqHeader.Set(headerIfRange, ifRange)
 		}
 		if acceptEncodingChanged {
 			reqHeader.Set(elton.HeaderAcceptEncoding, acceptEncoding)
